@@ -543,6 +543,7 @@ def run(pm, ctx):
     ctx.import_rules(pm, 'C01', {'C01-R8'}, 'C02-R11',
                      'parser accumulators are reset for every file: declarations of one file do not '
                      'leak into the description of another (shared with C01-R8)')
+    ir_helper_contracts(pm, ctx)
     from ..effects import run_decisions
     from ..ownership import OWN
     run_decisions(pm, ctx, 'C02-RD', OWN['C02'])
@@ -556,3 +557,54 @@ def run(pm, ctx):
     interface.run(pm, ctx, 'C02-RI', OWN['C02'])
     from .. import grammar
     grammar.run(pm, ctx, 'C02-GR', which=('GR2','GR3'))
+
+
+def ir_helper_contracts(pm, ctx, rule='C02-R12'):
+    """The three unwrap helpers every consumer of the description relies on: each peels
+    exactly the wrappers its name says, as long as any is left."""
+    ctx.rule(rule, 'unwrap_nullable peels one Nullable and nothing else, unwrap_aliases peels '
+                   'every Alias and nothing else, unwrap peels both kinds until neither is left')
+    from ..model import call_name
+    from ..pathcond import path_info
+
+    def tests_of(f):
+        names = set()
+        for n in own_nodes(f.node):
+            if isinstance(n, ast.Call) and call_name(n) in ('is_alias', 'is_nullable_type',
+                                                            'unwrap_aliases', 'unwrap_nullable',
+                                                            'unwrap', 'isinstance'):
+                names.add(call_name(n))
+                if call_name(n) == 'isinstance' and len(n.args) == 2:
+                    names.add('isinstance:' + unparse(n.args[1]))
+        return names
+    un = pm.func(IRM + '.unwrap_nullable')
+    t = tests_of(un)
+    rets = [r for r in own_nodes(un.node) if isinstance(r, ast.Return)]
+    pi = path_info(un.node)
+    peeled = [r for r in rets if isinstance(r.value, ast.Tuple) and
+              unparse(r.value.elts[0]) == un.params[0] + '.data_type']
+    ok = t == {'is_nullable_type'} and len(peeled) == 1 and \
+        [(unparse(e), p) for e, p in pi.at(peeled[0])] == [
+            ('is_nullable_type(%s)' % un.params[0], True)]
+    ctx.check(rule, ok, 'unwrap_nullable(dt) is (dt.data_type, True) exactly when dt itself is a '
+                        'Nullable', un.loc,
+              msg='unwrap_nullable now tests %s: a consumer that asks "is this reference nullable" '
+                  'gets another answer (an alias is a type of its own for the backends that keep '
+                  'aliases)' % sorted(t), key='%s|%s' % (rule, un.qualname))
+    ua = pm.func(IRM + '.unwrap_aliases')
+    t = tests_of(ua)
+    loops = [n for n in own_nodes(ua.node) if isinstance(n, ast.While)]
+    ok = t == {'is_alias'} and len(loops) == 1 and \
+        unparse(loops[0].test) == 'is_alias(%s)' % ua.params[0]
+    ctx.check(rule, ok, 'unwrap_aliases peels aliases, and only aliases, until none is left',
+              ua.loc, msg='unwrap_aliases now tests %s' % sorted(t),
+              key='%s|%s' % (rule, ua.qualname))
+    uw = pm.func(IRM + '.unwrap')
+    loops = [n for n in own_nodes(uw.node) if isinstance(n, ast.While)]
+    ok = len(loops) == 1 and sorted(unparse(v) for v in getattr(loops[0].test, 'values', [])) == \
+        sorted(['is_alias(%s)' % uw.params[0], 'is_nullable_type(%s)' % uw.params[0]]) and \
+        isinstance(loops[0].test, ast.BoolOp) and isinstance(loops[0].test.op, ast.Or)
+    ctx.check(rule, ok, 'unwrap peels aliases and nullables in any nesting until neither is left',
+              uw.loc, msg='unwrap no longer loops while the type is an alias or a nullable: a '
+                          'nullable between two alias layers (or the reverse) is left in place',
+              key='%s|%s' % (rule, uw.qualname))
